@@ -219,15 +219,15 @@ func (g *scGen) action(ind, depth int) {
 		g.push()
 		switch g.r.Intn(3) {
 		case 0:
-			g.line(ind, "for x, y := range []int{%d, %d} {", g.K(), g.K())
+			g.line(ind, "for x, y := range []int{x + %d, y + %d, %d} {", g.K(), g.K(), g.K())
 			g.cur()["x"], g.cur()["y"] = true, true
 		case 1:
 			n := g.name()
-			g.line(ind, "for %s := range []int{%d, %d} {", n, g.K(), g.K())
+			g.line(ind, "for %s := range make([]int, %s%%3+2) {", n, n)
 			g.cur()[n] = true
 		default:
 			n := g.name()
-			g.line(ind, "for _, %s := range []int{%d, %d} {", n, g.K(), g.K())
+			g.line(ind, "for _, %s := range []int{%s + %d, %d} {", n, n, g.K(), g.K())
 			g.cur()[n] = true
 		}
 		g.push()
